@@ -2,6 +2,7 @@
 import itertools
 from fractions import Fraction as Fr
 from .common import *
+from . import c07 as _c07
 
 ID = "C19"
 PROPS_FILES = ["Props/C19"]
@@ -109,6 +110,32 @@ def gen_cases(rng, tier):
             add([33, w, h, rng.choice([0, w - 1, w, w + 1, 2**32 - 1, rng.randint(0, w)]), rng.choice([0, h - 1, h, h + 1, 2**32 - 1, rng.randint(0, h)])])
             add([34, w, h, rng.randint(-3, w + 1), rng.randint(-3, h + 1), rng.randint(0, w + 3), rng.randint(0, h + 3)])
     add([31, 4, 2**29, 1]); add([32, 16, 2**30, 2**30]); add([32, 0, 2**32 - 1, 2**32 - 1])
+    # Mask::from_vec: small sizes around the exact length, and sizes whose pixel count does not fit 32 bits with tiny buffers
+    for i in range(200 if tier == "quick" else 2000):
+        w, h = rng.randint(0, 9), rng.randint(0, 9)
+        add([35, rng.choice([w * h, w * h + 1, max(0, w * h - 1), 0, w * h + rng.randint(0, 9)]), w, h])
+    for w, h in [(65536, 65536), (65536, 65537), (2**32 - 1, 2**32 - 1), (2**31, 2), (2**16, 2**16 + 1), (2**32 - 1, 1), (3, 2**31)]:
+        for ln in (0, 1, (w * h) % 2**32, 65536, 7):
+            if ln <= 70000:
+                add([35, ln, w, h])
+    # StrokeDash::new (the suite, model and oracle are C07's): random arrays, float extremes, and offsets that are exact
+    # multiples of the period, where the normalised offset must land in [0, interval_len)
+    for i in range(1500 if tier == "quick" else 20000):
+        k = rng.random()
+        if k < 0.4:
+            cases.append(("dash_new", _c07.rand_dash(rng, rng.choice([1.0, 1.0, 1e-3, 1e4, 1e-20, 1e30]))))
+        elif k < 0.7:
+            n = rng.choice([2, 2, 4, 6])
+            arr = [float(rng.choice([0, 1, 2, 3, 5, 8, 0.5, 0.25, 10, 1024])) for _ in range(n)]
+            if sum(arr) == 0:
+                arr[0] = 1.0
+            sm = sum(arr)
+            off = sm * rng.choice([1, -1, 2, -2, 3, 16, -16, 1024, 0.5, -0.5]) + rng.choice([0, 0, 0, arr[0], -arr[0]])
+            cases.append(("dash_new", [_c07.f2b(off), n] + [_c07.f2b(a) for a in arr]))
+        else:
+            n = rng.choice([0, 1, 2, 2, 3, 4, 4, 5, 6, 12, 13])
+            vals = [rng.choice(_c07.BOUNDARY_F32 + [_c07.f2b(1.0), _c07.f2b(2.0), _c07.f2b(0.5), 0, 0]) for _ in range(n)]
+            cases.append(("dash_new", [rng.choice(_c07.BOUNDARY_F32 + [0, _c07.f2b(1.5), _c07.f2b(-1.5)]), n] + vals))
     return cases
 
 
@@ -148,6 +175,8 @@ def valid_irect(o):
 
 
 def oracle(suite, args, out):
+    if suite == "dash_new":
+            return _c07.oracle(suite, args, out)
     if out.startswith(("PANIC", "CRASH", "HANG")):
         return "panicked instead of returning None: " + out[:160]
     o = ints(out)
@@ -259,6 +288,12 @@ def oracle(suite, args, out):
         if (o == [1]) != doc:
             return "Pixmap::from_vec acceptance differs from 'exact length'"
         return None
+    if k == 35:
+        ln, w, h = a
+        doc = 1 <= w <= 2**32 - 1 and 1 <= h <= 2**32 - 1 and ln == w * h
+        if (o == [1]) != doc:
+            return "Mask::from_vec acceptance differs from 'exactly width * height bytes' (%d bytes for %dx%d: %s)" % (ln, w, h, "accepted" if o == [1] else "rejected")
+        return None
     if k == 32:
         ln, w, h = a
         doc = w >= 1 and h >= 1 and 4 * w <= 2**31 - 1 and ln >= 4 * w * h
@@ -288,6 +323,8 @@ def oracle(suite, args, out):
 
 
 def nontrivial_tag(suite, args, out):
+    if suite == "dash_new":
+        return "dash_new:some" if len(out.split()) == 4 else None
     if out in ("-1", "-2", "-3"):
         return None
     return "fn%d:some" % args[0]
@@ -296,6 +333,8 @@ def nontrivial_tag(suite, args, out):
 def relation(suite, args, mo, io):
     if mo == io:
         return True
+    if suite == "dash_new":
+        return False
     # -0/+0 produced by min/max in intersect/join: same rectangle
     if args[0] in (5, 6):
         a, b = mo.split(), io.split()
